@@ -739,9 +739,17 @@ where
                     //now we can empty the buffer (on next iteration of the main loop)
                     self.emptybuffer = true;
                     // but first we prune unneeded items:
-                    if self.end < 0 && self.begin < 0 {
-                        //discard items from the begin which we do not want
-                        for _ in 0..self.begin.abs() {
+                    if self.begin < 0 {
+                        //discard items from the begin which we do not want: a negative begin is relative to the end,
+                        //only now do we know the total number of items (the cursor)
+                        let first_wanted = (self.cursor + self.begin).max(0);
+                        let buffered_until = if self.end > 0 {
+                            self.cursor.min(self.end)
+                        } else {
+                            self.cursor
+                        };
+                        let first_buffered = buffered_until - self.buffer.len() as isize;
+                        for _ in first_buffered..first_wanted {
                             self.buffer.pop_front();
                         }
                     }
